@@ -1466,21 +1466,24 @@ PPL::Polyhedron::add_generator(const Generator& g) {
       else {
         gen_sys.insert(g);
       }
-      if (!is_necessarily_closed() && g.is_point()) {
+      // Note: `g' may be a row of `gen_sys' itself (invalidated by
+      // the insertion): look at the row just inserted instead.
+      if (!is_necessarily_closed() && gen_sys.sys.rows.back().is_point()) {
         // In the NNC topology, each point has to be matched by
         // a corresponding closure point:
         // turn the just inserted point into the corresponding
         // (normalized) closure point.
+        const Generator inserted_point(gen_sys.sys.rows.back());
         gen_sys.sys.rows.back().set_epsilon_coefficient(0);
         gen_sys.sys.rows.back().expr.normalize();
         PPL_ASSERT(gen_sys.sys.rows.back().OK());
         PPL_ASSERT(gen_sys.sys.OK());
         // Re-insert the point (which is already normalized).
         if (has_pending) {
-          gen_sys.insert_pending(g);
+          gen_sys.insert_pending(inserted_point);
         }
         else {
-          gen_sys.insert(g);
+          gen_sys.insert(inserted_point);
         }
       }
     }
